@@ -475,11 +475,14 @@ def check_pivot(case):
     a = [PA[i] for i in case['a']]
     b = [PB[i] for i in case['b']]
     n = len(a)
-    cols = dict(a=a, b=b, ys=[YS[i] for i in case['y']], yi=[YI[i] for i in case['y']], c=list(range(n)),
-                f=[float('nan') if i % 2 else i + 0.5 for i in range(n)])
+    # in the one-key family the key column carries a name of which every y label ('p', 'q', '1', '2') is a substring: labels are turned into
+    # column names, so anything that handles the key NAME as text (substring / prefix tests) must not swallow them
+    A = 'kpq12' if case['x'] == 'a' else 'a'
+    cols = {A: a, 'b': b, 'ys': [YS[i] for i in case['y']], 'yi': [YI[i] for i in case['y']], 'c': list(range(n)),
+            'f': [float('nan') if i % 2 else i + 0.5 for i in range(n)]}
     tdesc = ' '.join('%s=%s' % (k, show(v)) for k, v in cols.items())
-    xcols = ['a'] if case['x'] == 'a' else ['a', 'b']
-    xspellings = [('a', "'a'")] if case['x'] == 'a' else [(['a', 'b'], "['a','b']"), (('a', 'b'), "('a','b')")]
+    xcols = [A] if case['x'] == 'a' else ['a', 'b']
+    xspellings = [(A, repr(A))] if case['x'] == 'a' else [(['a', 'b'], "['a','b']"), (('a', 'b'), "('a','b')")]
     xkeys = [tuple(cols[k][i] for k in xcols) for i in range(n)]
     groups = _groups(xkeys)
 
